@@ -61,6 +61,7 @@ type Conn struct {
 	readHeaderBuf  [8]byte
 	readControlBuf [maxControlPayload]byte
 	msgReader      *msgReader
+	closeFrameErr  error // the close frame received from the peer, guarded by readMu
 
 	// Write state.
 	msgWriter      *msgWriter
